@@ -32,6 +32,13 @@ func newCache[H Hash]() cache[H] {
 }
 
 func (c *cache[H]) getHeight(h uint32) *inbox[H] {
+	// Inboxes of past heights can never be used, drop them.
+	for old := range c.mail {
+		if old < h {
+			delete(c.mail, old)
+		}
+	}
+
 	if m, ok := c.mail[h]; ok {
 		delete(c.mail, h)
 		return m
